@@ -1,0 +1,16 @@
+//go:build verif
+// +build verif
+
+// Verification hook (property C13): read-only exports of the unexported share selection and
+// recovery routines. Add-only; compiled only with -tags verif.
+package groupsig
+
+// VerifC13RandomKSignInfo is getRandomKSignInfo: the random k-subset RecoverGroupSignature recovers from.
+func VerifC13RandomKSignInfo(memberSignMap map[string]Signature, k int) map[string]Signature {
+	return getRandomKSignInfo(memberSignMap, k)
+}
+
+// VerifC13RecoverSignature is recoverSignature on ordered slices.
+func VerifC13RecoverSignature(sigs []Signature, ids []ID) *Signature {
+	return recoverSignature(sigs, ids)
+}
